@@ -5,6 +5,7 @@ mod explore;
 mod par;
 mod props;
 mod spec;
+mod srvx;
 mod stream;
 mod util;
 
@@ -45,6 +46,7 @@ fn main() {
             let (repro, trace) = match r["engine"].as_str() {
                 Some("connx") => connx::replay(r),
                 Some("connw") => connw::replay(r),
+                Some("srvx") => srvx::replay(r),
                 Some("c05") => props::c05::replay(r),
                 Some("c14") => props::c14::replay(r),
                 Some("c15line") | Some("c15block") => props::c15::replay(r),
